@@ -369,6 +369,11 @@ func FuzzCase[C any](t *testing.T, sub string, c C, run func(C) Result) {
 	if tolerate(sub, res) {
 		return
 	}
+	if res.Inconclusive != "" && os.Getenv("VERIF_FUZZ_STRICT") != "" {
+		res.Sig, res.Violation = "inconclusive", res.Inconclusive
+		path := writeReplay(sub, c, res)
+		t.Fatalf("INCONCLUSIVE %s replay=%s", res.Inconclusive, path)
+	}
 	if res.Violation != "" {
 		path := writeReplay(sub, c, res)
 		t.Fatalf("VERIF-VIOLATION property=%s sub=%s sig=%s replay=%s\nVERIF-DETAIL %s", S.ID, sub, res.Sig, path, res.Violation)
